@@ -5,7 +5,14 @@
      (2) field b is never written after construction,
      (3) every write to field a is `a + 1` at a point where the fact a < b holds.
 
-Used as a type-invariant fact source by GUARD (e.g. EFIMemoryAreaIter: i <= entries)."""
+Used as a type-invariant fact source by GUARD (e.g. EFIMemoryAreaIter: i <= entries).
+
+Stride invariants (stride_invariants): for a struct with private fields R: &[u8] and D: usize,
+   len(S.R) % S.D == 0   holds for every value of S  if
+     (1) every aggregate construction of S outside derived impls happens where the fact len(R) % D == 0 holds for the values given,
+     (2) D is never written after construction,
+     (3) every write to R stores the rest of the current R after its first D bytes (`R.split_at(D).1` / `&R[D..]`).
+(A cursor over a slice that is consumed D bytes at a time.)"""
 from . import mir as M
 
 _cache = {}
@@ -83,4 +90,65 @@ def counter_invariants(F):
                     out.setdefault(path, []).append((ia, fa["name"], ib, fb["name"]))
     _cache[id(F)] = out
     an._cache.clear()   # analyses memoised while the invariants were being computed lack them
+    return out
+
+
+_cache2 = {}
+
+
+def stride_invariants(F):
+    if id(F) in _cache2:
+        return _cache2[id(F)]
+    _cache2[id(F)] = {}
+    from . import an, guard as G
+    out = {}
+    for key, a in F.adts.items():
+        if key.startswith("generic ") or a.get("kind") != "struct" or a.get("crate") not in ("multiboot2", "multiboot2_header", "multiboot2_common"):
+            continue
+        fl = a.get("fields", [])
+        rs = [f for f in fl if str(f["ty"]).replace("'_ ", "").replace("'a ", "") in ("&[u8]",) or str(f["ty"]).endswith("[u8]") and str(f["ty"]).startswith("&") and "mut" not in str(f["ty"])]
+        ds = [f for f in fl if f["ty"] == "usize"]
+        if len(rs) != 1 or len(ds) != 1 or any(f["pub"] for f in fl):
+            continue
+        fr, fd = rs[0], ds[0]
+        path = a["path"]
+        good = True
+        n_ctor = 0
+        n_write = 0
+        for k, inst in F.insts.items():
+            for bi, bb in enumerate(inst["body"]["blocks"]):
+                if bb.get("cleanup") or not good:
+                    continue
+                for si, st in enumerate(bb["s"]):
+                    if st["k"] != "assign":
+                        continue
+                    rv = st["rv"]
+                    if rv["k"] == "aggr" and rv.get("adt") == path and not inst.get("derived"):
+                        A = an.of(F, inst)
+                        ops = [A.tb.operand(o, (bi, si)) for o in rv["ops"]]
+                        need = ("cmp", "Eq", ("bin", "Rem", ("len", ops[fr["i"]]), ops[fd["i"]], "usize"), ("c", 0))
+                        nf = [G.N(f) for f in A.g.facts_at(bi)]
+                        if G.N(need) not in nf:
+                            good = False
+                        n_ctor += 1
+                    lhs = st["lhs"]
+                    p = lhs.get("p") or []
+                    if len(p) >= 2 and p[0] == "*" and isinstance(p[1], dict) and "f" in p[1] and \
+                            adt_path_of(F, inst["body"]["locals"][lhs["l"]]["ty"]) == path:
+                        if p[1]["f"] == fd["i"]:
+                            good = False
+                        elif p[1]["f"] == fr["i"]:
+                            A = an.of(F, inst)
+                            val = G.N(A.tb.rvalue(rv, (bi, si), st))
+                            selfl = ("arg", 1)
+                            cur_r = ("fld", ("deref", selfl), fr["i"])
+                            cur_d = ("fld", ("deref", selfl), fd["i"])
+                            want = ("sub", cur_r, cur_d, ("len", cur_r))
+                            if lhs["l"] != 1 or val != want:
+                                good = False
+                            n_write += 1
+        if good and n_ctor >= 1:
+            out.setdefault(path, []).append((fr["i"], fr["name"], fr["ty"], fd["i"], fd["name"]))
+    _cache2[id(F)] = out
+    an._cache.clear()
     return out
